@@ -29,9 +29,32 @@ EXPECTED = {
 }
 
 
+# rules of sibling properties that are necessary conditions of this one too
+# (evaluated by the sibling module on the same graphs, reported under this property)
+ALSO = {'C16': {'R16.4': 'the same-volume verdict is established per argument, not remembered'}}
+
 def enum_name(t):
     t = strip(t)
     return t.name if isinstance(t, EnumVal) else None
+
+
+def reads_xdg(t):
+    """The term *is* a path built from the value of $XDG_DATA_HOME (a format whose
+    template names the variable, or one of whose holes is environ.get / environ[...] of
+    it) -- the producing site, not a value computed from such a path."""
+    def direct(x):
+        x = strip(x)
+        if isinstance(x, MCall) and x.name == 'get' and x.args and \
+                is_const(strip(x.args[0]), 'XDG_DATA_HOME'):
+            return True
+        return isinstance(x, Sub) and is_const(strip(x.index), 'XDG_DATA_HOME')
+    t = strip(t)
+    if isinstance(t, Fmt):
+        return 'XDG_DATA_HOME' in t.template or any(
+            direct(a) for arg in t.args for a in flat(arg))
+    if is_call(t, *JOIN):
+        return any(direct(a) for arg in t.args for a in flat(arg))
+    return False
 
 
 def check(ctx):
@@ -130,8 +153,7 @@ def check(ctx):
             tops = []
             for a in flat(v):
                 tops.extend(a.items if isinstance(a, (ListObj, TupleT)) else [a])
-            if any(isinstance(strip(x), Fmt) and 'XDG_DATA_HOME' in strip(x).template
-                   for x in tops):
+            if any(reads_xdg(x) for x in tops):
                 prod.append(n)
         prod = [n for n in prod if not any(
             p.id != n.id and bb.g.dominates(p.id, n.id) for p in prod)]
@@ -141,18 +163,13 @@ def check(ctx):
             if n.func in seen:
                 continue
             seen.add(n.func)
-            ok = False
-            for c, pol, a in guards(bb, n.id):
-                c2, p2 = unwrap_not(c, pol)
-                if not p2:
-                    continue
-                for x in ([c2] + (list(c2.values) if isinstance(c2, BoolT) else [])):
-                    x = strip(x)
-                    if isinstance(x, MCall) and x.name == 'get' and x.args and \
-                            is_const(strip(x.args[0]), 'XDG_DATA_HOME'):
-                        ok = True
-                    if isinstance(x, Sub) and is_const(strip(x.index), 'XDG_DATA_HOME'):
-                        ok = True
+            def truthy_xdg(c2, p2):
+                x = strip(c2)
+                return p2 and (
+                    (isinstance(x, MCall) and x.name == 'get' and bool(x.args) and
+                     is_const(strip(x.args[0]), 'XDG_DATA_HOME')) or
+                    (isinstance(x, Sub) and is_const(strip(x.index), 'XDG_DATA_HOME')))
+            ok = established(bb, n.id, truthy_xdg)
             ctx.ob('R07.3', '%s: XDG_DATA_HOME is used only when non-empty' % cmd, ok, node=n,
                    message='XDG_DATA_HOME is selected by membership alone: when it is set but '
                            'empty the home trash becomes "/Trash" instead of '
